@@ -185,6 +185,59 @@ func runC35(c *Ctx) {
 		f := c.NewFlow(da)
 		info := f.Info
 		maxWait := info.Defs[da.Decl.Type.Params.List[2].Names[0]]
+		// roles of the locals, identified by what they are computed from (not by their names)
+		role := map[types.Object]string{}
+		isAddOn := func(e ast.Expr, recvOK func(ast.Expr) bool, argOK func(ast.Expr) bool) bool {
+			call, ok := ast.Unparen(e).(*ast.CallExpr)
+			if !ok || len(call.Args) != 1 {
+				return false
+			}
+			cal := callee(info, call)
+			return cal != nil && cal.Name() == "Add" && recvOK(recvExpr(call)) && argOK(call.Args[0])
+		}
+		isNow := func(e ast.Expr) bool {
+			e = ast.Unparen(e)
+			if id, ok := e.(*ast.Ident); ok {
+				if def := singleLocalDefIn(info, da.Decl.Body, info.ObjectOf(id)); def != nil {
+					e = ast.Unparen(def)
+				}
+			}
+			call, ok := e.(*ast.CallExpr)
+			if !ok {
+				return false
+			}
+			cal := callee(info, call)
+			return cal != nil && cal.Pkg() != nil && cal.Pkg().Path() == "time" && cal.Name() == "Now"
+		}
+		ast.Inspect(da.Decl.Body, func(n ast.Node) bool {
+			as, ok := n.(*ast.AssignStmt)
+			if !ok || len(as.Lhs) != 1 || len(as.Rhs) != 1 {
+				return true
+			}
+			l := objOf(info, as.Lhs[0])
+			if l == nil {
+				return true
+			}
+			switch {
+			case isAddOn(as.Rhs[0], isNow, func(a ast.Expr) bool { return objOf(info, a) == maxWait }):
+				role[l] = "callerDeadline"
+			case isAddOn(as.Rhs[0], isNow, func(a ast.Expr) bool {
+				k, isK := objOfConst(info, a)
+				return isK && k.Name() == "relocationNotFoundMaskWindow"
+			}):
+				role[l] = "notFoundDeadline"
+			case isAddOn(as.Rhs[0], isNow, func(a ast.Expr) bool { o := objOf(info, a); return o != nil && o != maxWait }):
+				role[l] = "deadline"
+				role[objOf(info, ast.Unparen(as.Rhs[0]).(*ast.CallExpr).Args[0])] = "window"
+			}
+			return true
+		})
+		for _, a := range f.Find(f.CallTo(c.FuncObj("actor", "sleepWithinHandoff"))) {
+			if o := objOf(info, a.N.(*ast.CallExpr).Args[2]); o != nil && role[o] == "" {
+				role[o] = "attemptDeadline"
+			}
+		}
+		is := func(o types.Object, r string) bool { return o != nil && role[o] == r }
 		// window := relocationHandoffWindow; if maxWait > 0 && maxWait < window { window = maxWait }
 		clampW := false
 		ast.Inspect(da.Decl.Body, func(n ast.Node) bool {
@@ -197,7 +250,7 @@ func runC35(c *Ctx) {
 			lt := false
 			for _, ft := range facts {
 				if cm, ok := asCmp(ft.E, true); ok && cm.Op == token.LSS && objOf(info, cm.L) == maxWait {
-					if o := objOf(info, cm.R); o != nil && o.Name() == "window" {
+					if is(objOf(info, cm.R), "window") {
 						lt = true
 					}
 				}
@@ -207,7 +260,7 @@ func runC35(c *Ctx) {
 			}
 			for _, st := range ifs.Body.List {
 				if as, ok := st.(*ast.AssignStmt); ok && len(as.Lhs) == 1 && objOf(info, as.Rhs[0]) == maxWait {
-					if o := objOf(info, as.Lhs[0]); o != nil && o.Name() == "window" {
+					if is(objOf(info, as.Lhs[0]), "window") {
 						clampW = true
 					}
 				}
@@ -225,7 +278,7 @@ func runC35(c *Ctx) {
 			ast.Inspect(ifs.Cond, func(m ast.Node) bool {
 				if call, ok := m.(*ast.CallExpr); ok {
 					if cal := callee(info, call); cal != nil && cal.Name() == "Before" {
-						if o := objOf(info, recvExpr(call)); o != nil && o.Name() == "callerDeadline" {
+						if is(objOf(info, recvExpr(call)), "callerDeadline") {
 							mentions = true
 						}
 					}
@@ -238,7 +291,7 @@ func runC35(c *Ctx) {
 			for _, st := range ifs.Body.List {
 				if as, ok := st.(*ast.AssignStmt); ok && len(as.Lhs) == 1 {
 					l, r := objOf(info, as.Lhs[0]), objOf(info, as.Rhs[0])
-					if l != nil && r != nil && l.Name() == "notFoundDeadline" && r.Name() == "callerDeadline" {
+					if is(l, "notFoundDeadline") && is(r, "callerDeadline") {
 						capNF = true
 					}
 				}
@@ -251,16 +304,16 @@ func runC35(c *Ctx) {
 		for _, a := range f.Find(f.CallTo(c.FuncObj("actor", "sleepWithinHandoff"))) {
 			call := a.N.(*ast.CallExpr)
 			o := objOf(info, call.Args[2])
-			if o == nil || o.Name() != "attemptDeadline" {
+			if !is(o, "attemptDeadline") {
 				okArg = false
 			}
 		}
 		okAssign := true
 		ast.Inspect(da.Decl.Body, func(n ast.Node) bool {
 			if as, ok := n.(*ast.AssignStmt); ok && len(as.Lhs) == 1 && as.Tok == token.ASSIGN {
-				if o := objOf(info, as.Lhs[0]); o != nil && o.Name() == "attemptDeadline" {
+				if o := objOf(info, as.Lhs[0]); is(o, "attemptDeadline") {
 					r := objOf(info, as.Rhs[0])
-					if r == nil || (r.Name() != "deadline" && r.Name() != "notFoundDeadline") {
+					if !is(r, "deadline") && !is(r, "notFoundDeadline") {
 						okAssign = false
 					}
 				}
@@ -277,7 +330,7 @@ func runC35(c *Ctx) {
 			}
 			if call, ok := ast.Unparen(f.Cond(b)).(*ast.CallExpr); ok {
 				if cal := callee(info, call); cal != nil && cal.Name() == "IsZero" {
-					if o := objOf(info, recvExpr(call)); o != nil && o.Name() == "callerDeadline" {
+					if is(objOf(info, recvExpr(call)), "callerDeadline") {
 						zero[Edge{b, 1}] = true
 					}
 				}
